@@ -185,6 +185,8 @@ def _range_values(forst):
     it = forst.iter
     if isinstance(it, ast.Call) and dotted(it.func) == "range" and all(isinstance(a, ast.Constant) and isinstance(a.value, int) for a in it.args):
         return list(range(*[a.value for a in it.args]))
+    if isinstance(it, (ast.Tuple, ast.List)) and it.elts and all(isinstance(a, ast.Constant) and isinstance(a.value, int) for a in it.elts):
+        return [a.value for a in it.elts]
     return None
 
 
